@@ -66,6 +66,7 @@ var catalogue = map[string]catEntry{
 	"remove-const":           {false, "audit.go:195 Warning 'Constant removed'"},
 	"add-const":              {false, "property text 'constant changes'; audit.go:205 iterates over the old constants only"},
 	"rename-prefix-variable": {false, "audit.go:111 '... other than renaming variables' (:132-134)"},
+	"drop-include":           {false, "the include list is not audited; only applicable when no audited position, extends clause or value of the file names the include: at most constants (audit.go:195 Warning 'Constant removed') and unused typedefs (not audited) go with it"},
 	"add-extends":            {false, "audit.go:312 'It's fine to add inheritance, but not change it if it already exists'"},
 	"add-method-end":         {false, "DESIGN 'added methods'; audit.go:331 iterates over the old methods only"},
 	"add-service":            {false, "DESIGN 'added ... services'; audit.go:310 iterates over the old services only"},
@@ -423,6 +424,57 @@ func (en *enumerator) fileLevel(f *idl.File) {
 			return false
 		})
 	}
+	for _, inc := range f.Includes {
+		path := inc.Path
+		target := path
+		if k := strings.LastIndex(target, "."); k > 0 {
+			target = target[:k]
+		}
+		shared := 0
+		for _, g := range en.p.Files {
+			if g != f && includesFile(g, target) {
+				shared++
+			}
+		}
+		kind := "include/only-includer"
+		if shared > 0 {
+			kind = "include/shared-with-other-files"
+		}
+		en.add("drop-include", fb, "include "+path, kind, []string{fb + "/inc:" + target}, func(c *ectx) bool {
+			cf := fileOf(c.p, fb)
+			tf := fileOf(c.p, target)
+			if cf == nil || tf == nil || !includesFile(cf, target) {
+				return false
+			}
+			names := func(t *idl.Type) bool {
+				for _, nd := range typeNodes(t) {
+					if !nd.t.IsContainer() && strings.HasPrefix(nd.t.Name, target+".") {
+						return true
+					}
+				}
+				return false
+			}
+			// constants and unused typedefs that name the include go with it
+			var keep []*idl.Decl
+			for _, d := range cf.Decls {
+				switch {
+				case d.Const != nil && (names(d.Const.Type) || valueNames(d.Const.Value, target)):
+					continue
+				case d.TypeDef != nil && names(d.TypeDef.Type) && !referenced(c.p, cf, d.TypeDef.Name, false):
+					continue
+				}
+				keep = append(keep, d)
+			}
+			cf.Decls = keep
+			for i, x := range cf.Includes {
+				if x.Path == path {
+					cf.Includes = append(cf.Includes[:i:i], cf.Includes[i+1:]...)
+					break
+				}
+			}
+			return true // anything else that still names the include fails the validity net: not an applicable site
+		})
+	}
 	en.add("add-namespace", fb, "namespace +", "namespace", []string{fb + "/+ns"}, func(c *ectx) bool {
 		cf := fileOf(c.p, fb)
 		have := map[string]bool{}
@@ -493,6 +545,19 @@ func (en *enumerator) fileLevel(f *idl.File) {
 // ---------------------------------------------------------------------------
 // structs, unions, exceptions
 // ---------------------------------------------------------------------------
+
+// valueNames reports whether a constant value holds an identifier of file
+// `target` (target.Enum.VARIANT).
+func valueNames(v interface{}, target string) bool {
+	found := false
+	mapIdents(idl.CloneValue(v), func(i idl.Ident) idl.Ident {
+		if strings.HasPrefix(string(i), target+".") && strings.Count(string(i), ".") == 2 {
+			found = true
+		}
+		return i
+	})
+	return found
+}
 
 func maxFieldID(fs []*idl.Field) int {
 	m := 0
@@ -1180,6 +1245,16 @@ func (en *enumerator) serviceLevel(f *idl.File, di int, s *idl.Service, declPos 
 		if len(okParents) > 0 {
 			to := okParents[en.rng.Intn(len(okParents))]
 			en.add("change-extends", fb, "service "+sn+" extends "+old+" -> "+to, "service/extends"+acrossTag(old)+">"+strings.TrimPrefix(acrossTag(to), "-"), ekey, setExtends(to, func(cur string) bool { return cur == old }))
+		}
+		// re-parenting onto a different service that has the same short name
+		// (another include, or local vs included): every such parent
+		short := func(x string) string { return x[strings.LastIndex(x, ".")+1:] }
+		for _, to := range okParents {
+			to := to
+			if short(to) == short(old) {
+				e := en.add("change-extends", fb, "service "+sn+" extends "+old+" -> "+to, "service/extends"+acrossTag(old)+">"+strings.TrimPrefix(acrossTag(to), "-")+"/same-short-name", ekey, setExtends(to, func(cur string) bool { return cur == old }))
+				e.Quals = []string{"same-short-name"}
+			}
 		}
 	} else if len(okParents) > 0 {
 		to := okParents[en.rng.Intn(len(okParents))]
